@@ -20,6 +20,13 @@ type I5 interface {
 	D(a int) int
 }
 
+// IW has methods whose arguments occupy more integer registers than the ABI has spare scratch
+// registers (receiver + 8 ints; receiver + 4 strings = 9 integer words each).
+type IW interface {
+	Sum8(a, b, c, d, e, f, g, h int) int
+	Join(a, b, c, d string) int
+}
+
 // Impl is a real implementation of all of them.
 type Impl struct{ K int }
 
@@ -28,6 +35,10 @@ func (i *Impl) B(a int) int { return a + i.K + 2 }
 func (i *Impl) c(a int) int { return a + i.K + 3 }
 func (i *Impl) D(a int) int { return a + i.K + 4 }
 func (i *Impl) E(a int) int { return a + i.K + 5 }
+func (i *Impl) Sum8(a, b, c, d, e, f, g, h int) int {
+	return a + b + c + d + e + f + g + h + i.K + 6
+}
+func (i *Impl) Join(a, b, c, d string) int { return len(a) + len(b) + len(c) + len(d) + i.K + 7 }
 
 // The mocked variables.
 var (
@@ -35,16 +46,17 @@ var (
 	Y I3
 	Z I5
 	W I1
+	V IW
 )
 
-var realX, realY, realZ, realW = &Impl{1000}, &Impl{2000}, &Impl{3000}, &Impl{4000}
+var realX, realY, realZ, realW, realV = &Impl{1000}, &Impl{2000}, &Impl{3000}, &Impl{4000}, &Impl{5000}
 
 // SetInitial puts the variables into their initial state.
 func SetInitial(realImpl bool) {
 	if realImpl {
-		X, Y, Z, W = realX, realY, realZ, realW
+		X, Y, Z, W, V = realX, realY, realZ, realW, realV
 	} else {
-		X, Y, Z, W = nil, nil, nil, nil
+		X, Y, Z, W, V = nil, nil, nil, nil, nil
 	}
 }
 
@@ -77,6 +89,10 @@ func Call(v, m string, a int) int {
 		return Z.E(a)
 	case "W.A":
 		return W.A(a)
+	case "V.Sum8":
+		return V.Sum8(a, 2, 3, 4, 5, 6, 7, 8)
+	case "V.Join":
+		return V.Join(JoinFirst(a), "b", "cc", "ddd")
 	}
 	panic("bad call " + v + "." + m)
 }
@@ -92,8 +108,18 @@ func IsNil(v string) bool {
 		return Z == nil
 	case "W":
 		return W == nil
+	case "V":
+		return V == nil
 	}
 	panic("bad var")
+}
+
+// JoinFirst is the first string argument used for probe value a.
+func JoinFirst(a int) string {
+	if a == 7 {
+		return "seven"
+	}
+	return "other"
 }
 
 // Words returns the two words of variable v.
@@ -107,6 +133,8 @@ func Words(v string) [2]uintptr {
 		return *(*[2]uintptr)(unsafe.Pointer(&Z))
 	case "W":
 		return *(*[2]uintptr)(unsafe.Pointer(&W))
+	case "V":
+		return *(*[2]uintptr)(unsafe.Pointer(&V))
 	}
 	panic("bad var")
 }
@@ -117,10 +145,17 @@ var Methods = map[string][]string{
 	"Y": {"A", "B", "c"},
 	"Z": {"A", "B", "c", "D", "E"},
 	"W": {"A"},
+	"V": {"Sum8", "Join"},
 }
 
 // RealResult is what the real implementation returns.
 func RealResult(v, m string, a int) int {
-	k := map[string]int{"X": 1000, "Y": 2000, "Z": 3000, "W": 4000}[v]
+	k := map[string]int{"X": 1000, "Y": 2000, "Z": 3000, "W": 4000, "V": 5000}[v]
+	switch m {
+	case "Sum8":
+		return a + 2 + 3 + 4 + 5 + 6 + 7 + 8 + k + 6
+	case "Join":
+		return len(JoinFirst(a)) + 1 + 2 + 3 + k + 7
+	}
 	return a + k + map[string]int{"A": 1, "B": 2, "c": 3, "D": 4, "E": 5}[m]
 }
